@@ -351,8 +351,8 @@ def read_dataset_from_hdf5(ds: h5py.Dataset) -> DataSet:
     ndim = len(dataset.data.shape)
     ncol = dataset.data.shape[-1]
 
-    # Read timestamp.
-    dataset.timestamp = ds.attrs["QMI_DataSet_timestamp"]
+    # Read timestamp (h5py returns a Numpy scalar; keep it a plain float as in a new DataSet).
+    dataset.timestamp = float(ds.attrs["QMI_DataSet_timestamp"])
 
     # Read special attributes for labels.
     for axis in range(ndim - 1):
@@ -374,6 +374,9 @@ def read_dataset_from_hdf5(ds: h5py.Dataset) -> DataSet:
     # Read custom attributes.
     for (name, value) in ds.attrs.items():
         if (not name.startswith("QMI_DataSet")) and (not name.startswith("DIMENSION_")):
+            if isinstance(value, np.generic):
+                # h5py returns numbers as Numpy scalars; convert to the plain int / float that was stored.
+                value = value.item()
             dataset.attrs[name] = value
 
     return dataset
